@@ -294,6 +294,15 @@ impl<'a> Word<'a> {
                     continue;
                 }
 
+                #[cfg(feature = "verif-hooks")]
+                crate::verif::emit(
+                    "break_apart.char",
+                    &[
+                        crate::verif::n(idx),
+                        crate::verif::n(offset),
+                        crate::verif::n(width),
+                    ],
+                );
                 if width > 0 && width + ch_width(ch) > line_width {
                     let word = Word {
                         word: &self.word[offset..idx],
